@@ -1,8 +1,8 @@
 #!/verif/.venv/bin/python
 # Replay of a solver counterexample against the unmodified code (no shims).
-# property=C09 kernel=copy label=copy:switch_register_copy_unaffected_by_calls_on_original
+# property=C09 kernel=atomic label=atomic:align#1
 import sys
 sys.path[:0] = ['/repo' + "/pulser-core", '/repo' + "/pulser-simulation", "/verif"]
 from symx.replay import replay
-sys.exit(replay(check='checks.c09', kernel='copy', shape={'device': 'virt_maxseq', 'via': 'switch_register'},
-                assignment={'d0/k': 2, 'a0': '1/1024', 'det0': -1, 'd1/k': 2, 'a1': '1/1024', 'buf#1.start': 0, 'buf#1.end': 22, 'buf#2.start': 0, 'buf#2.end': 23, 'buf#5.start': 0, 'buf#5.end': 2, 'buf#6.start': 0, 'buf#6.end': 3, 'dl/k': 2, 'buf#13.start': 0, 'buf#13.end': 12, 'buf#14.start': 0, 'buf#14.end': 13}, label='copy:switch_register_copy_unaffected_by_calls_on_original'))
+sys.exit(replay(check='checks.c09', kernel='atomic', shape={'device': 'virt_maxseq', 'prefix': 'p2', 'ops': ['delay_rest', 'align']},
+                assignment={'pd1/k': 3, 'pd2/k': 981, 'buf#1.start': 0, 'buf#1.end': 0, 'buf#2.start': 0, 'buf#2.end': 23, 'dl0': 3933, 'buf#7.start': 0, 'buf#7.end': 4, 'buf#8.start': 0, 'buf#8.end': 5}, label='atomic:align#1'))
